@@ -2,6 +2,7 @@ package props
 
 import (
 	"encoding/hex"
+	"go/token"
 	"fmt"
 	"go/ast"
 	"go/constant"
@@ -230,6 +231,58 @@ func c14(c *an.Check) {
 		}
 		return ""
 	})
+	// SIGNBIT: the table holds encodings with the sign bit cleared, so the classifier may only look at the input's
+	// last byte through a 0x7f mask: every read ge[idx] for which the path does not establish idx < 31 must be
+	// masked before use (a necessary condition; the accumulate/compare idiom itself is not pattern-matched).
+	nReads, nMasked, badRead := 0, 0, ""
+	ex := &an.Explorer{P: p}
+	seenRead := map[ssa.Instruction]bool{}
+	ex.OnInstr = func(s *an.State, ins ssa.Instruction) bool {
+		u, ok := ins.(*ssa.UnOp)
+		if !ok {
+			return true
+		}
+		ia, ok := u.X.(*ssa.IndexAddr)
+		if !ok || !an.IsParam(ia.X, 0) {
+			return true
+		}
+		if !seenRead[ins] {
+			seenRead[ins] = true
+			nReads++
+		}
+		r := s.Rel(ia.Index, ssa.NewConst(constant.MakeInt64(31), ia.Index.Type()))
+		if r == an.LT {
+			return true // provably not the last byte
+		}
+		// must be masked: every use of the loaded byte is `& 0x7f`
+		masked := u.Referrers() != nil && len(*u.Referrers()) > 0
+		if masked {
+			for _, ref := range *u.Referrers() {
+				if _, dbg := ref.(*ssa.DebugRef); dbg {
+					continue
+				}
+				bo, isBin := ref.(*ssa.BinOp)
+				if !isBin || bo.Op != token.AND || !(isByteConst(bo.X, 0x7f) || isByteConst(bo.Y, 0x7f)) {
+					masked = false
+				}
+			}
+		}
+		if masked {
+			nMasked++
+		} else if badRead == "" {
+			badRead = fmt.Sprintf("the input byte read at %s may be the last byte (index not known < 31 on this path) and is used without the 0x7f mask", p.Pos(u.Pos()))
+		}
+		return true
+	}
+	ex.Run(lo, nil)
+	c.Touch(lo)
+	c.Require(badRead == "" && nReads >= 2 && nMasked >= 1 && !ex.Truncated, "SIGNBIT", "extra25519 classifier ignores the sign bit of the input's last byte", lo, "", ex.States,
+		fmt.Sprintf("%d input reads; every read that may be byte 31 is masked with 0x7f", nReads), func() string {
+			if badRead != "" {
+				return badRead
+			}
+			return "input reads not found / no masked read of the last byte (anchor drift)"
+		}())
 	// every caller hands over exactly 32 bytes (IsEdLowOrder indexes ge[0..31])
 	n := 0
 	for _, fn := range p.AllRepoFuncs() {
@@ -285,4 +338,9 @@ func init() {
 		NotCov:      "functional correctness of the constant-time classifier loop for all 2^256 inputs given the table (a solver/proof task — deliberately not pattern-matched), and the shared-secret symmetry clause (runtime values).",
 		Technique:   "static analysis: constant evaluation of the type-checked table literal compared with a set derived from the curve equation; SSA must-pass gates and call-site argument-length rule",
 		Assumptions: commonAssumptions})
+}
+
+func isByteConst(v ssa.Value, n int64) bool {
+	k, ok := v.(*ssa.Const)
+	return ok && k.Value != nil && k.Value.Kind() == constant.Int && k.Int64() == n
 }
